@@ -811,3 +811,132 @@ def rule_regular_zeros_length(rep, fb, floor=3, name="REGULAR.zeros-length"):
     if n < 10:
         raise AnalysisError("only %d RegularArray constructions with a variable size found" % n)
     return r.done()
+
+
+# ------------------------------------------------------------------------------------------------
+# strides are accumulated from the innermost dimension
+
+def rule_strides_inner_first(rep, fb, floor=3, name="STRIDES.inner-first"):
+    r = rep.rule(name, "a loop that builds C-order strides by prepending (`strides.insert(strides.begin(), ...)`, each new stride a product with what is already there) walks the dimensions from the innermost one: "
+                 "a counter that decreases, or reverse iterators - a range-for or an increasing counter over the shape multiplies the outer extents into the inner strides (right shape, wrong items for "
+                 "non-square index arrays)", floor=floor)
+    n = 0
+    for f in fb.lib_funcs(inst=False):
+        for lp in find_all(f["body"], lambda k: k[0] in ("for", "foreach", "while")):
+            body = lp[2] if lp[0] in ("for", "while") else lp[4]
+            ins = find_all(body, lambda k: k[0] == "mcall" and k[1] == "insert" and k[3][0] == "var" and "stride" in k[3][1].lower() and k[4] and find_all((k[4][0],), lambda q: q[0] == "mcall" and q[1] == "begin" and q[3] == k[3]))
+            # only the loop directly around the insert
+            if not ins or any(find_all((b,), lambda q: q is ins[0]) for b in find_all(body, lambda k: k[0] in ("for", "foreach", "while"))):
+                continue
+            n += 1
+            if lp[0] == "foreach":
+                ok, how = False, "range-for (outermost first)"
+            elif lp[0] == "for":
+                txt = repr(lp[3]) + repr(lp[1])
+                dec = bool(find_all(lp[3], lambda k: (k[0] == "aug" and k[1] == "-") or (k[0] == "un" and k[1] in ("--", "post--", "pre--")))) or "'--'" in repr(lp[3]) or "post--" in repr(lp[3])
+                rev = "rend" in txt or "rbegin" in txt
+                ok, how = (dec or rev), ("decreasing counter" if dec else ("reverse iterators" if rev else "increasing counter"))
+            else:
+                ok, how = True, "while loop (not classified)"
+            r.check(ok, "%s#%s%d" % (f["qual"], ins[0][3][1], n), "%s:%d" % (f["file"], ins[0][-1] if isinstance(ins[0][-1], int) else f["line"]),
+                    "%s prepends to `%s` in a loop that walks the dimensions with a %s" % (f["qual"], ins[0][3][1], how), detail=how)
+    if n < 3:
+        raise AnalysisError("only %d stride-prepending loops found" % n)
+    return r.done()
+
+
+# ------------------------------------------------------------------------------------------------
+# both ends of a range on content_ are positions in the same numbering
+
+def rule_range_same_base(rep, fb, floor=3, name="ORIGIN.range-one-base"):
+    r = rep.rule(name, "in the list node classes, the two bounds of `content_.getitem_range[_nowrap](a, b)` are positions in one numbering: both taken from this node's own starts_/stops_/offsets_ (positions in content_) "
+                 "or both zero-based - never one read from offsets_ and the other from a compacted copy (`compact_offsets64`, offsets of toListOffsetArray64(true)), whose values are smaller by offsets_[0]: "
+                 "the mixed range cuts the content short by the first offset, which only views that do not start at 0 notice", floor=floor)
+    n = 0
+    for f in fb.lib_funcs(inst=False):
+        if (f.get("cls") or "") not in ("ListOffsetArrayOf", "ListArrayOf"):
+            continue
+        body = f["body"]
+        zero_idx, abs_names, zero_names = set(), set(), set()
+        for d in find_all(body, lambda k: k[0] == "decl" and k[3] is not None):
+            if find_all((d[3],), lambda q: q[0] == "mcall" and q[1] == "compact_offsets64"):
+                zero_idx.add(d[1])
+        grew = True
+        while grew:
+            grew = False
+            for d in find_all(body, lambda k: k[0] == "decl" and k[3] is not None):
+                if d[1] in abs_names or d[1] in zero_names or d[1] in zero_idx:
+                    continue
+                if find_all((d[3],), lambda q: (q[0] == "member" and q[1] == ("this",) and q[2] in ("offsets_", "starts_", "stops_")) or (q[0] == "var" and q[1] in abs_names)):
+                    abs_names.add(d[1]); grew = True
+                elif find_all((d[3],), lambda q: q[0] == "var" and (q[1] in zero_idx or q[1] in zero_names)):
+                    zero_names.add(d[1]); grew = True
+
+        def base(e):
+            if find_all((e,), lambda q: (q[0] == "member" and q[1] == ("this",) and q[2] in ("offsets_", "starts_", "stops_")) or (q[0] == "var" and q[1] in abs_names)):
+                return "own"
+            if find_all((e,), lambda q: q[0] == "var" and (q[1] in zero_idx or q[1] in zero_names)):
+                return "zero-based"
+            return None
+        for m in find_all(body, lambda k: k[0] == "mcall" and k[1] in ("getitem_range_nowrap", "getitem_range") and len(k[4]) == 2 and find_all((k[3],), lambda q: q == ("member", ("this",), "content_"))):
+            a, b = base(m[4][0]), base(m[4][1])
+            if a is None and b is None:
+                continue
+            n += 1
+            r.check(not (a and b and a != b), "%s#range%d" % (f["qual"], n), "%s:%d" % (f["file"], m[-1] if isinstance(m[-1], int) else f["line"]),
+                    "%s cuts content_ from a %s position to a %s position" % (f["qual"], a, b), detail="%s .. %s" % (a or "-", b or "-"))
+    if n < 3:
+        raise AnalysisError("only %d ranges on content_ with classified bounds found" % n)
+    return r.done()
+
+
+
+# ------------------------------------------------------------------------------------------------
+# a union is as long as its tags
+
+def rule_union_length_is_tags(rep, fb, floor=4, name="LENGTH.union-tags"):
+    r = rep.rule(name, "in UnionArrayOf, the length of the array is the length of tags_ (index_ may be longer: the constructor only requires len(index) >= len(tags)); index_.length() is read only to compare it with "
+                 "the tags' length - it is never handed to a kernel as the number of items nor used as a loop bound: the items beyond len(tags) are not part of the array, and tags_ has no entries for them", floor=floor)
+    n = 0
+    for f in fb.lib_funcs(inst=False):
+        if (f.get("cls") or "") != "UnionArrayOf":
+            continue
+        uses = find_all(f["body"], lambda k: k[0] == "mcall" and k[1] == "length" and k[3] == ("member", ("this",), "index_"))
+        if not uses:
+            continue
+        cmps = find_all(f["body"], lambda k: k[0] == "bin" and k[1] in ("<", "<=", ">", ">=", "==", "!="))
+        for u in uses:
+            n += 1
+            incmp = any(find_all((c[2],), lambda q: q is u) or find_all((c[3],), lambda q: q is u) for c in cmps)
+            r.check(incmp, "%s#index_.length%d" % (f["qual"], n), "%s:%d" % (f["file"], u[-1] if isinstance(u[-1], int) else f["line"]),
+                    "%s uses index_.length() as a count of items (the array has tags_.length() items)" % f["qual"], detail="only compared")
+    if n < 4:
+        raise AnalysisError("only %d reads of index_.length() in UnionArrayOf found" % n)
+    return r.done()
+
+
+# ------------------------------------------------------------------------------------------------
+# the offset of an Identities view counts elements of the buffer
+
+def rule_identities_offset_units(rep, fb, floor=4, name="UNIT.identities-offset"):
+    r = rep.rule(name, "in IdentitiesOf, offset_ counts elements of the flat buffer (data() is ptr_ + offset_; value(row, col) is ptr_[offset_ + row*width_ + col]): wherever it takes part in an address or in the "
+                 "offset of a derived view it is added, never multiplied by width_ - rows are scaled by width_, the offset already is", floor=floor)
+    n = 0
+    for f in fb.lib_funcs(inst=False):
+        if (f.get("cls") or "") != "IdentitiesOf":
+            continue
+        for m in find_all(f["body"], lambda k: k[0] == "bin" and k[1] == "*"):
+            sides = (m[2], m[3])
+            if not any(find_all((s_,), lambda q: q == ("member", ("this",), "offset_")) for s_ in sides):
+                continue
+            # offset_ inside a product: allowed only as (offset_ + ...) * sizeof (byte counts)
+            n += 1
+            other = [s_ for s_ in sides if not find_all((s_,), lambda q: q == ("member", ("this",), "offset_"))]
+            bytes_ = bool(other) and bool(find_all((other[0],), lambda q: q[0] == "sizeof"))
+            r.check(bytes_, "%s#scaled%d" % (f["qual"], n), "%s:%d" % (f["file"], m[-1] if isinstance(m[-1], int) else f["line"]), "%s multiplies an expression containing offset_ (already in elements) by something other than sizeof(T)" % f["qual"], detail="byte count")
+        for a in find_all(f["body"], lambda k: k[0] == "bin" and k[1] == "+" and ("member", ("this",), "offset_") in (k[2], k[3])):
+            n += 1
+            r.ok("%s#added%d" % (f["qual"], n), "offset_ added")
+    if n < 4:
+        raise AnalysisError("only %d uses of offset_ in IdentitiesOf arithmetic found" % n)
+    return r.done()
